@@ -98,9 +98,13 @@ GEN_OPA_RX = re.compile(r"^std::ops::(Add|Sub|Mul|Div)Assign::(add|sub|mul|div)_
 FIELD_OPA_RX = re.compile(r"<" + FIELD_TY + r" as std::ops::(Add|Sub|Mul|Div)Assign(<.*>)?>::(add|sub|mul|div)_assign$")
 
 
+SUBST_NAMED_RX = re.compile(r"::storage::read_message$|^prost::Message::decode$|^std::mem::size_of$")
+
+
 def callee_name(t):
     n = t.get("resolved") or t.get("callee") or "<fnptr>"
-    if n.startswith("<T as ") or n.startswith("std::convert::") or n.startswith("<I as ") or n.startswith("<U as "):
+    if n.startswith("<T as ") or n.startswith("std::convert::") or n.startswith("<I as ") or n.startswith("<U as ") \
+            or n.startswith("byteorder::") or SUBST_NAMED_RX.search(n):
         n = n + "@" + (t.get("resolved_substs") or t.get("substs") or "")
     return n
 
@@ -318,7 +322,14 @@ class Engine:
             return ("zst", c["ty"])
         if "mem" in c:
             return ("mem", c["ty"], tuple(c["mem"]))
-        return ("lit", c["ty"], c.get("disp", ""))
+        disp = c.get("disp", "")
+        if re.match(r"^&(\'\w+ )?\[u8; \d+\]$", c.get("ty", "")) and disp.startswith('b"'):
+            try:
+                import ast
+                return ("bytes", tuple(ast.literal_eval(disp)))
+            except Exception:
+                pass
+        return ("lit", c["ty"], disp)
 
     def operand(self, item, frame, st, o):
         if "cp" in o:
